@@ -14,6 +14,12 @@ structure interval_IntervalPoint where
   ListId : Int
 deriving DecidableEq, Repr
 
+structure interval_Interval where
+  Start : Int
+  End : Int
+  ClosedEnd : Bool
+deriving DecidableEq, Repr
+
 def julian_monthLen : List Int := [31, 28, 31, 30, 31, 30, 31, 31, 30, 31, 30, 31]
 def julian_monthLenSum : List Int := [0, 31, 59, 90, 120, 151, 181, 212, 243, 273, 304, 334, 365]
 def jalali_monthLen : List Int := [31, 31, 31, 31, 31, 31, 30, 30, 30, 30, 30, 30]
@@ -145,6 +151,89 @@ def interval_Less (p : (List interval_IntervalPoint)) (i : Int) (j : Int) : Opti
         else
           pure false
 
+/-- interval/interval.go:243 -/
+def interval_GetPointList (list : (List interval_Interval)) (listId : Int) : Option (List interval_IntervalPoint) := do
+  let count := ((list).length : Int)
+  let points ← (GoSem.mkLen (2 * count) ({ Pos := 0, IsEnd := false, Closed := false, ListId := 0 } : interval_IntervalPoint))
+  let _r1 ← GoSem.forFold (ρ := Empty) (fun points ii interval => do
+      let points ← GoSem.setA points (2 * ii) ({ Pos := (interval).Start, IsEnd := false, Closed := true, ListId := listId } : interval_IntervalPoint)
+      let points ← GoSem.setA points ((2 * ii) + 1) ({ Pos := (interval).End, IsEnd := true, Closed := (interval).ClosedEnd, ListId := listId } : interval_IntervalPoint)
+      pure (GoSem.Flow.next points)
+    ) list 0 points
+  match _r1 with
+  | GoSem.Flow.ret _v => nomatch _v
+  | GoSem.Flow.next points =>
+    pure points
+
+/-- utils/stack/int64.go:9 -/
+def stack_Pop (s : (List Int)) : Option ((List Int) × Int) := do
+  let l := ((s).length : Int)
+  pure ((← (GoSem.takeA s (l - 1))), (← (GoSem.idx s (l - 1))))
+
+/-- utils/stack/int64.go:5 -/
+def stack_Push (s : (List Int)) (v : Int) : Option (List Int) := do
+  pure (s ++ [v])
+
+/-- interval/interval.go:198 -/
+def interval_GetIntervalList (points : (List interval_IntervalPoint)) : Option (Option (List interval_Interval)) := do
+  let pcount := ((points).length : Int)
+  let list ← (GoSem.mkCap (α := interval_Interval) (Int.tdiv pcount 2))
+  let startedStack ← (GoSem.mkCap (α := Int) pcount)
+  let start := (0 : Int)
+  let _r1 ← GoSem.forFold (ρ := (Option (List interval_Interval))) (fun (list, startedStack, start) _i point => do
+      if (!(point).IsEnd) then
+        let startedStack ← (stack_Push startedStack (point).Pos)
+        pure (GoSem.Flow.next (list, startedStack, start))
+      else
+        if (decide (((startedStack).length : Int) = 0)) then
+          pure (GoSem.Flow.ret none)
+        else
+          let (startedStack, start) ← (stack_Pop startedStack)
+          if (decide (((startedStack).length : Int) = 0)) then
+            let list := (list ++ [({ Start := start, End := (point).Pos, ClosedEnd := (point).Closed } : interval_Interval)])
+            pure (GoSem.Flow.next (list, startedStack, start))
+          else
+            pure (GoSem.Flow.next (list, startedStack, start))
+    ) points 0 (list, startedStack, start)
+  match _r1 with
+  | GoSem.Flow.ret _v => pure _v
+  | GoSem.Flow.next (list, startedStack, start) =>
+    pure (some list)
+
+-- NOT TRANSLATED: interval_Normalize (interval/interval.go:372): call of github.com/ilius/libgostarcal/interval.IntervalList.isSortedByStart (not in the list of translated functions)
+
+/-- interval/interval.go:265 -/
+def interval_Humanize (list : (List interval_Interval)) : Option (List interval_Interval) := do
+  let closedEndCount := (0 : Int)
+  let _r1 ← GoSem.forFold (ρ := Empty) (fun closedEndCount _i interval => do
+      if ((interval).ClosedEnd && (decide ((interval).End > (interval).Start))) then
+        let closedEndCount := (closedEndCount + 1)
+        pure (GoSem.Flow.next closedEndCount)
+      else
+        pure (GoSem.Flow.next closedEndCount)
+    ) list 0 closedEndCount
+  match _r1 with
+  | GoSem.Flow.ret _v => nomatch _v
+  | GoSem.Flow.next closedEndCount =>
+    if (decide (closedEndCount = 0)) then
+      pure list
+    else
+      let newLen := (((list).length : Int) + closedEndCount)
+      let newList ← (GoSem.mkCap (α := interval_Interval) newLen)
+      let _r2 ← GoSem.forFold (ρ := Empty) (fun newList _i interval_1 => do
+          if ((interval_1).ClosedEnd && (decide ((interval_1).End > (interval_1).Start))) then
+            let newList := (newList ++ [({ Start := (interval_1).Start, End := (interval_1).End, ClosedEnd := false } : interval_Interval)])
+            let newList := (newList ++ [({ Start := (interval_1).End, End := (interval_1).End, ClosedEnd := true } : interval_Interval)])
+            pure (GoSem.Flow.next newList)
+          else
+            let newList := (newList ++ [interval_1])
+            pure (GoSem.Flow.next newList)
+        ) list 0 newList
+      match _r2 with
+      | GoSem.Flow.ret _v => nomatch _v
+      | GoSem.Flow.next newList =>
+        pure newList
+
 /-- cal_types/julian/julian.go:114 -/
 def julian_IsLeap (year : Int) : Option Bool := do
   pure (decide ((Int.tmod year 4) = 0))
@@ -163,7 +252,7 @@ def julian_getYearDays (month : Int) (leap : Bool) : Option Int := do
 
 /-- cal_types/julian/julian.go:127 -/
 def julian_getMonthDayFromYdays (yDays : Int) (leap : Bool) : Option (Int × Int) := do
-  let month := 1
+  let month := (1 : Int)
   let month ← GoSem.whileFuel GoSem.fuel
     (fun month => do (do if (decide (month < 12)) then pure (decide (yDays > (← (julian_getYearDays (GoSem.u8 (month + 1)) leap)))) else pure false))
     (fun month => do
@@ -236,10 +325,10 @@ def jalali_JdTo (alg2820 : Bool) (jd : Int) : Option GoSem.Date := do
   if alg2820 then
     let deltaDays := (jd - (← (jalali_ToJd alg2820 (← (SrcExt.lib_NewDate 475 1 1)))))
     let (cycle, cyear) ← (utils_Divmod deltaDays 1029983)
-    let ycycle := 0
+    let ycycle := (0 : Int)
     let ycycle ← (do
       if (decide (cyear = 1029982)) then
-        let ycycle := 2820
+        let ycycle := (2820 : Int)
         pure ycycle
       else
         let (aux1, aux2) ← (utils_Divmod cyear 366)
@@ -257,7 +346,7 @@ def jalali_JdTo (alg2820 : Bool) (jd : Int) : Option GoSem.Date := do
     let year_1 := ((979 + (33 * j_np)) + (4 * yearFact))
     let (jdays, year_1) ← (do
       if (decide (jdays ≥ 366)) then
-        let yearPlus := 0
+        let yearPlus := (0 : Int)
         let (yearPlus, jdays) ← (utils_Divmod (jdays - 1) 365)
         let year_1 := (year_1 + yearPlus)
         pure (jdays, year_1)
@@ -305,7 +394,7 @@ def ethiopian_JdTo (jd : Int) : Option GoSem.Date := do
     )
   let (year, month, day) ← (do
     if (decide (month = 12)) then
-      let mLen := 35
+      let mLen := (35 : Int)
       let _c1 ← (ethiopian_IsLeap year)
       let mLen ← (do
         if _c1 then
@@ -316,7 +405,7 @@ def ethiopian_JdTo (jd : Int) : Option GoSem.Date := do
         )
       if (decide (day > mLen)) then
         let year := (year + 1)
-        let month := 1
+        let month := (1 : Int)
         let day := (day - mLen)
         pure (year, month, day)
       else
@@ -350,10 +439,10 @@ def gprol_IsLeap (year : Int) : Option Bool := do
 
 /-- cal_types/gregorian_proleptic/gregorian_proleptic.go:119 -/
 def gprol_ToJd (date : GoSem.Date) : Option Int := do
-  let a := 0
+  let a := (0 : Int)
   let a ← (do
     if (decide ((date).Month < 3)) then
-      let a := 1
+      let a := (1 : Int)
       pure a
     else
       pure a
@@ -406,20 +495,20 @@ def indian_IsLeap (year : Int) : Option Bool := do
 
 /-- cal_types/indian_national/indian_national.go:98 -/
 def indian_ToJd (date : GoSem.Date) : Option Int := do
-  let jdFirstDayOfYear := 0
-  let daysInMonth1 := 0
+  let jdFirstDayOfYear := (0 : Int)
+  let daysInMonth1 := (0 : Int)
   let _c1 ← (indian_IsLeap (date).Year)
   let (jdFirstDayOfYear, daysInMonth1) ← (do
     if _c1 then
       let jdFirstDayOfYear ← (SrcExt.gregorian_ToJd (← (SrcExt.lib_NewDate ((date).Year + 78) 3 21)))
-      let daysInMonth1 := 31
+      let daysInMonth1 := (31 : Int)
       pure (jdFirstDayOfYear, daysInMonth1)
     else
       let jdFirstDayOfYear ← (SrcExt.gregorian_ToJd (← (SrcExt.lib_NewDate ((date).Year + 78) 3 22)))
-      let daysInMonth1 := 30
+      let daysInMonth1 := (30 : Int)
       pure (jdFirstDayOfYear, daysInMonth1)
     )
-  let jd := 0
+  let jd := (0 : Int)
   let jd ← (do
     if (decide ((date).Month = 1)) then
       let jd := ((jdFirstDayOfYear + (date).Day) - 1)
@@ -436,9 +525,9 @@ def indian_ToJd (date : GoSem.Date) : Option Int := do
 
 /-- cal_types/indian_national/indian_national.go:136 -/
 def indian_JdTo (jd : Int) : Option GoSem.Date := do
-  let year := 0
-  let month := 0
-  let day := 0
+  let year := (0 : Int)
+  let month := (0 : Int)
+  let day := (0 : Int)
   let gDate ← (SrcExt.gregorian_JdTo jd)
   let jdGregorianFirstDayOfYear ← (SrcExt.gregorian_ToJd (← (SrcExt.lib_NewDate (gDate).Year 1 1)))
   let gregorianDayOfYear := ((jd - jdGregorianFirstDayOfYear) + 1)
@@ -450,17 +539,17 @@ def indian_JdTo (jd : Int) : Option GoSem.Date := do
       let year := ((gDate).Year - 79)
       pure year
     )
-  let daysInMonth1 := 0
+  let daysInMonth1 := (0 : Int)
   let _c1 ← (indian_IsLeap year)
   let daysInMonth1 ← (do
     if _c1 then
-      let daysInMonth1 := 31
+      let daysInMonth1 := (31 : Int)
       pure daysInMonth1
     else
-      let daysInMonth1 := 30
+      let daysInMonth1 := (30 : Int)
       pure daysInMonth1
     )
-  let indianDayOfYear := 0
+  let indianDayOfYear := (0 : Int)
   let indianDayOfYear ← (do
     if (decide (gregorianDayOfYear > 80)) then
       let indianDayOfYear := (gregorianDayOfYear - 80)
@@ -471,7 +560,7 @@ def indian_JdTo (jd : Int) : Option GoSem.Date := do
     )
   let (month, day) ← (do
     if (decide (indianDayOfYear ≤ daysInMonth1)) then
-      let month := 1
+      let month := (1 : Int)
       let day := indianDayOfYear
       pure (month, day)
     else
@@ -526,7 +615,596 @@ def hijri_GetMonthLen (year : Int) (month : Int) : Option Int := do
     else
       pure 29
 
+/-! ### overflow-checked copies: the same code with every int / int64 `+ - *`, negation and non-constant `/` passed
+    through GoSem.chk64 (`none` when the exact result does not fit in 64 bits) -/
+
+/-- utils/divmod.go:4 -/
+def utils_Mod_chk (a : Int) (b : Int) : Option Int := do
+  let mod ← (GoSem.rem a b)
+  if (((decide (mod < 0)) && (decide (b > 0))) || ((decide (mod > 0)) && (decide (b < 0)))) then
+    (GoSem.chk64 (mod + b))
+  else
+    pure mod
+
+/-- utils/divmod.go:13 -/
+def utils_Div_chk (a : Int) (b : Int) : Option Int := do
+  let mod ← (GoSem.rem a b)
+  if (((decide (mod < 0)) && (decide (b > 0))) || ((decide (mod > 0)) && (decide (b < 0)))) then
+    (GoSem.chk64 ((← (GoSem.quo64 a b)) - 1))
+  else
+    (GoSem.quo64 a b)
+
+/-- utils/divmod.go:22 -/
+def utils_Divmod_chk (a : Int) (b : Int) : Option (Int × Int) := do
+  let div ← (GoSem.quo64 a b)
+  let mod ← (GoSem.rem a b)
+  if (((decide (mod < 0)) && (decide (b > 0))) || ((decide (mod > 0)) && (decide (b < 0)))) then
+    pure ((← (GoSem.chk64 (div - 1))), (← (GoSem.chk64 (mod + b))))
+  else
+    pure (div, mod)
+
+/-- utils/funcs.go:25 -/
+def utils_IntMin_chk (a : Int) (b : Int) : Option Int := do
+  if (decide (a < b)) then
+    pure a
+  else
+    pure b
+
+/-- utils/funcs.go:185 -/
+def utils_GetHmsBySeconds_chk (second : Int) : Option GoSem.HMS := do
+  pure ({ Hour := (GoSem.u8 (Int.tdiv second 3600)), Minute := (GoSem.u8 (Int.tmod (Int.tdiv second 60) 60)), Second := (GoSem.u8 (Int.tmod second 60)) } : GoSem.HMS)
+
+/-- utils/funcs.go:53 -/
+def utils_MonthListIsValid_chk (list : (List Int)) : Option Bool := do
+  let _r1 ← GoSem.forRange list (fun v => do
+      if (!((decide (v > 0)) && (decide (v < 13)))) then
+        pure (some false)
+      else
+        pure none
+    )
+  match _r1 with
+  | some _v => pure _v
+  | none =>
+    pure true
+
+/-- utils/funcs.go:62 -/
+def utils_DayListIsValid_chk (list : (List Int)) : Option Bool := do
+  let _r1 ← GoSem.forRange list (fun v => do
+      if (!((decide (v > 0)) && (decide (v < 40)))) then
+        pure (some false)
+      else
+        pure none
+    )
+  match _r1 with
+  | some _v => pure _v
+  | none =>
+    pure true
+
+/-- utils/funcs.go:71 -/
+def utils_WeekDayListIsValid_chk (list : (List Int)) : Option Bool := do
+  let _r1 ← GoSem.forRange list (fun v => do
+      if (!((decide (v ≥ 0)) && (decide (v < 7)))) then
+        pure (some false)
+      else
+        pure none
+    )
+  match _r1 with
+  | some _v => pure _v
+  | none =>
+    pure true
+
+/-- hms.go:35 -/
+def lib_GetTotalSeconds_chk (hms : GoSem.HMS) : Option Int := do
+  (GoSem.chk64 ((← (GoSem.chk64 ((← (GoSem.chk64 ((hms).Hour * 3600))) + (← (GoSem.chk64 ((hms).Minute * 60)))))) + (hms).Second))
+
+/-- hms.go:39 -/
+def lib_GetFloatHour_chk (hms : GoSem.HMS) : Option Rat := do
+  pure (((((hms).Hour : Int) : Rat) + ((((hms).Minute : Int) : Rat) / ((60 : Rat) / 1))) + ((((hms).Second : Int) : Rat) / ((3600 : Rat) / 1)))
+
+/-- hms.go:137 -/
+def lib_FloatHourToHMS_chk (fh : Rat) : Option GoSem.HMS := do
+  let total := (GoSem.ftoi ((Rat.floor ((fh * ((3600 : Rat) / 1)) + ((1 : Rat) / 2)) : Int) : Rat))
+  pure ({ Hour := (GoSem.u8 (Int.tdiv total 3600)), Minute := (GoSem.u8 (Int.tmod (Int.tdiv total 60) 60)), Second := (GoSem.u8 (Int.tmod total 60)) } : GoSem.HMS)
+
+/-- date.go:49 -/
+def lib_toUint8_chk (v : Int) : Option Int := do
+  if ((decide (v < 0)) || (decide (v > 255))) then
+    pure 255
+  else
+    pure (GoSem.u8 v)
+
+/-- hms.go:43 -/
+def lib_HMS_IsValid_chk (hms : GoSem.HMS) : Option Bool := do
+  pure (((decide ((hms).Hour < 24)) && (decide ((hms).Minute < 60))) && (decide ((hms).Second < 60)))
+
+/-- date.go:43 -/
+def lib_Date_IsValid_chk (date : GoSem.Date) : Option Bool := do
+  pure ((((decide ((date).Month > 0)) && (decide ((date).Month < 13))) && (decide ((date).Day > 0))) && (decide ((date).Day < 40)))
+
+/-- interval/interval.go:171 -/
+def interval_Less_chk (p : (List interval_IntervalPoint)) (i : Int) (j : Int) : Option Bool := do
+  let a ← (GoSem.idxA p i)
+  let b ← (GoSem.idxA p j)
+  if (decide ((a).Pos ≠ (b).Pos)) then
+    pure (decide ((a).Pos < (b).Pos))
+  else
+    if ((a).IsEnd != (b).IsEnd) then
+      pure (b).IsEnd
+    else
+      if ((a).Closed != (b).Closed) then
+        if (a).IsEnd then
+          pure (b).Closed
+        else
+          pure (a).Closed
+      else
+        if (decide ((a).ListId ≠ (b).ListId)) then
+          pure (decide ((a).ListId < (b).ListId))
+        else
+          pure false
+
+/-- interval/interval.go:243 -/
+def interval_GetPointList_chk (list : (List interval_Interval)) (listId : Int) : Option (List interval_IntervalPoint) := do
+  let count := ((list).length : Int)
+  let points ← (GoSem.mkLen (← (GoSem.chk64 (2 * count))) ({ Pos := 0, IsEnd := false, Closed := false, ListId := 0 } : interval_IntervalPoint))
+  let _r1 ← GoSem.forFold (ρ := Empty) (fun points ii interval => do
+      let points ← GoSem.setA points (← (GoSem.chk64 (2 * ii))) ({ Pos := (interval).Start, IsEnd := false, Closed := true, ListId := listId } : interval_IntervalPoint)
+      let points ← GoSem.setA points (← (GoSem.chk64 ((← (GoSem.chk64 (2 * ii))) + 1))) ({ Pos := (interval).End, IsEnd := true, Closed := (interval).ClosedEnd, ListId := listId } : interval_IntervalPoint)
+      pure (GoSem.Flow.next points)
+    ) list 0 points
+  match _r1 with
+  | GoSem.Flow.ret _v => nomatch _v
+  | GoSem.Flow.next points =>
+    pure points
+
+/-- utils/stack/int64.go:9 -/
+def stack_Pop_chk (s : (List Int)) : Option ((List Int) × Int) := do
+  let l := ((s).length : Int)
+  pure ((← (GoSem.takeA s (← (GoSem.chk64 (l - 1))))), (← (GoSem.idx s (← (GoSem.chk64 (l - 1))))))
+
+/-- utils/stack/int64.go:5 -/
+def stack_Push_chk (s : (List Int)) (v : Int) : Option (List Int) := do
+  pure (s ++ [v])
+
+/-- interval/interval.go:198 -/
+def interval_GetIntervalList_chk (points : (List interval_IntervalPoint)) : Option (Option (List interval_Interval)) := do
+  let pcount := ((points).length : Int)
+  let list ← (GoSem.mkCap (α := interval_Interval) (Int.tdiv pcount 2))
+  let startedStack ← (GoSem.mkCap (α := Int) pcount)
+  let start := (0 : Int)
+  let _r1 ← GoSem.forFold (ρ := (Option (List interval_Interval))) (fun (list, startedStack, start) _i point => do
+      if (!(point).IsEnd) then
+        let startedStack ← (stack_Push_chk startedStack (point).Pos)
+        pure (GoSem.Flow.next (list, startedStack, start))
+      else
+        if (decide (((startedStack).length : Int) = 0)) then
+          pure (GoSem.Flow.ret none)
+        else
+          let (startedStack, start) ← (stack_Pop_chk startedStack)
+          if (decide (((startedStack).length : Int) = 0)) then
+            let list := (list ++ [({ Start := start, End := (point).Pos, ClosedEnd := (point).Closed } : interval_Interval)])
+            pure (GoSem.Flow.next (list, startedStack, start))
+          else
+            pure (GoSem.Flow.next (list, startedStack, start))
+    ) points 0 (list, startedStack, start)
+  match _r1 with
+  | GoSem.Flow.ret _v => pure _v
+  | GoSem.Flow.next (list, startedStack, start) =>
+    pure (some list)
+
+/-- interval/interval.go:265 -/
+def interval_Humanize_chk (list : (List interval_Interval)) : Option (List interval_Interval) := do
+  let closedEndCount := (0 : Int)
+  let _r1 ← GoSem.forFold (ρ := Empty) (fun closedEndCount _i interval => do
+      if ((interval).ClosedEnd && (decide ((interval).End > (interval).Start))) then
+        let closedEndCount ← (GoSem.chk64 (closedEndCount + 1))
+        pure (GoSem.Flow.next closedEndCount)
+      else
+        pure (GoSem.Flow.next closedEndCount)
+    ) list 0 closedEndCount
+  match _r1 with
+  | GoSem.Flow.ret _v => nomatch _v
+  | GoSem.Flow.next closedEndCount =>
+    if (decide (closedEndCount = 0)) then
+      pure list
+    else
+      let newLen ← (GoSem.chk64 (((list).length : Int) + closedEndCount))
+      let newList ← (GoSem.mkCap (α := interval_Interval) newLen)
+      let _r2 ← GoSem.forFold (ρ := Empty) (fun newList _i interval_1 => do
+          if ((interval_1).ClosedEnd && (decide ((interval_1).End > (interval_1).Start))) then
+            let newList := (newList ++ [({ Start := (interval_1).Start, End := (interval_1).End, ClosedEnd := false } : interval_Interval)])
+            let newList := (newList ++ [({ Start := (interval_1).End, End := (interval_1).End, ClosedEnd := true } : interval_Interval)])
+            pure (GoSem.Flow.next newList)
+          else
+            let newList := (newList ++ [interval_1])
+            pure (GoSem.Flow.next newList)
+        ) list 0 newList
+      match _r2 with
+      | GoSem.Flow.ret _v => nomatch _v
+      | GoSem.Flow.next newList =>
+        pure newList
+
+/-- cal_types/julian/julian.go:114 -/
+def julian_IsLeap_chk (year : Int) : Option Bool := do
+  pure (decide ((Int.tmod year 4) = 0))
+
+/-- cal_types/julian/julian.go:118 -/
+def julian_getYearDays_chk (month : Int) (leap : Bool) : Option Int := do
+  let ydays ← (GoSem.idx julian_monthLenSum (GoSem.u8 (month - 1)))
+  let ydays ← (do
+    if (leap && (decide (month < 3))) then
+      let ydays ← (GoSem.chk64 (ydays - 1))
+      pure ydays
+    else
+      pure ydays
+    )
+  pure ydays
+
+/-- cal_types/julian/julian.go:127 -/
+def julian_getMonthDayFromYdays_chk (yDays : Int) (leap : Bool) : Option (Int × Int) := do
+  let month := (1 : Int)
+  let month ← GoSem.whileFuel GoSem.fuel
+    (fun month => do (do if (decide (month < 12)) then pure (decide (yDays > (← (julian_getYearDays_chk (GoSem.u8 (month + 1)) leap)))) else pure false))
+    (fun month => do
+      let month := (GoSem.u8 (month + 1))
+      pure month
+    )
+    month
+  let day := (GoSem.u8 (← (GoSem.chk64 (yDays - (← (julian_getYearDays_chk month leap))))))
+  pure (month, day)
+
+/-- cal_types/julian/julian.go:137 -/
+def julian_ToJd_chk (date : GoSem.Date) : Option Int := do
+  let (quadCount, yMode) ← (utils_Divmod_chk (date).Year 4)
+  (GoSem.chk64 ((← (GoSem.chk64 ((← (GoSem.chk64 ((← (GoSem.chk64 (1721058 + (← (GoSem.chk64 (1461 * quadCount)))))) + (← (GoSem.chk64 (365 * yMode)))))) + (← (julian_getYearDays_chk (date).Month (decide (yMode = 0))))))) + (date).Day))
+
+/-- cal_types/julian/julian.go:146 -/
+def julian_JdTo_chk (jd : Int) : Option GoSem.Date := do
+  let (quadCount, quadDays) ← (utils_Divmod_chk (← (GoSem.chk64 (jd - 1721058))) 1461)
+  if (decide (quadDays = 0)) then
+    (SrcExt.lib_NewDate (← (GoSem.chk64 (4 * quadCount))) 1 1)
+  else
+    let (yMode, yDays) ← (utils_Divmod_chk (← (GoSem.chk64 (quadDays - 1))) 365)
+    let yDays ← (GoSem.chk64 (yDays + 1))
+    let year ← (GoSem.chk64 ((← (GoSem.chk64 (4 * quadCount))) + yMode))
+    let (month, day) ← (julian_getMonthDayFromYdays_chk yDays (decide (yMode = 0)))
+    (SrcExt.lib_NewDate year month day)
+
+/-- cal_types/julian/julian.go:162 -/
+def julian_GetMonthLen_chk (year : Int) (month : Int) : Option Int := do
+  if (decide (month = 2)) then
+    let _c1 ← (julian_IsLeap_chk year)
+    if _c1 then
+      pure 29
+    else
+      pure 28
+  else
+    (GoSem.idx julian_monthLen (GoSem.u8 (month - 1)))
+
+/-- cal_types/jalali/jalali.go:116 -/
+def jalali_IsLeap_chk (alg2820 : Bool) (year : Int) : Option Bool := do
+  if alg2820 then
+    pure (decide ((← (utils_Mod_chk (← (GoSem.chk64 ((← (utils_Mod_chk (← (GoSem.chk64 (year - 474))) 2820)) * 682))) 2816)) < 682))
+  else
+    let jy ← (GoSem.chk64 (year - 979))
+    let (jyd, jym) ← (utils_Divmod_chk jy 33)
+    let (jyd2, jym2) ← (utils_Divmod_chk (← (GoSem.chk64 (jy + 1))) 33)
+    pure (decide (1 = (← (GoSem.chk64 ((← (GoSem.chk64 ((← (GoSem.chk64 ((← (GoSem.chk64 (jyd2 - jyd))) * 8))) + (Int.tdiv (← (GoSem.chk64 (jym2 + 3))) 4)))) - (Int.tdiv (← (GoSem.chk64 (jym + 3))) 4))))))
+
+/-- cal_types/jalali/jalali.go:163 -/
+def jalali_getMonthDayFromYdays_chk (yday : Int) : Option (Int × Int) := do
+  let month := (GoSem.u8 (← (SrcExt.utils_BisectLeft jalali_monthLenSum yday)))
+  let day := (GoSem.u8 (← (GoSem.chk64 (yday - (← (GoSem.idx jalali_monthLenSum (GoSem.u8 (month - 1))))))))
+  pure (month, day)
+
+/-- cal_types/jalali/jalali.go:133 -/
+def jalali_ToJd_chk (alg2820 : Bool) (date : GoSem.Date) : Option Int := do
+  if alg2820 then
+    let epbase ← (GoSem.chk64 ((date).Year - 474))
+    let (epbase_d, epbase_m) ← (utils_Divmod_chk epbase 2820)
+    let epyear ← (GoSem.chk64 (474 + epbase_m))
+    let mm := (GoSem.u8 ((date).Month - 1))
+    (GoSem.chk64 ((← (GoSem.chk64 ((← (GoSem.chk64 ((← (GoSem.chk64 ((← (GoSem.chk64 ((← (GoSem.chk64 ((← (GoSem.chk64 ((date).Day + (← (GoSem.chk64 (mm * 30)))))) + (← (utils_IntMin_chk 6 mm))))) + (← (utils_Div_chk (← (GoSem.chk64 ((← (GoSem.chk64 (epyear * 682))) - 110))) 2816))))) + (← (GoSem.chk64 ((← (GoSem.chk64 (epyear - 1))) * 365)))))) + (← (GoSem.chk64 (epbase_d * 1029983)))))) + 1948321))) - 1))
+  else
+    let jy ← (GoSem.chk64 ((date).Year - 979))
+    let (jyd, jym) ← (utils_Divmod_chk jy 33)
+    (GoSem.chk64 ((← (GoSem.chk64 ((← (GoSem.chk64 ((← (GoSem.chk64 ((← (GoSem.chk64 ((← (GoSem.chk64 ((← (GoSem.chk64 ((← (GoSem.chk64 (365 * jy))) + (← (GoSem.chk64 (jyd * 8)))))) + (← (utils_Div_chk (← (GoSem.chk64 (jym + 3))) 4))))) + (← (GoSem.idx jalali_monthLenSum (GoSem.u8 ((date).Month - 1))))))) + (date).Day))) - 1))) + 584101))) + 1721426))
+
+/-- cal_types/jalali/jalali.go:170 -/
+def jalali_JdTo_chk (alg2820 : Bool) (jd : Int) : Option GoSem.Date := do
+  if alg2820 then
+    let deltaDays ← (GoSem.chk64 (jd - (← (jalali_ToJd_chk alg2820 (← (SrcExt.lib_NewDate 475 1 1))))))
+    let (cycle, cyear) ← (utils_Divmod_chk deltaDays 1029983)
+    let ycycle := (0 : Int)
+    let ycycle ← (do
+      if (decide (cyear = 1029982)) then
+        let ycycle := (2820 : Int)
+        pure ycycle
+      else
+        let (aux1, aux2) ← (utils_Divmod_chk cyear 366)
+        let ycycle ← (GoSem.chk64 ((← (GoSem.chk64 ((← (utils_Div_chk (← (GoSem.chk64 ((← (GoSem.chk64 ((← (GoSem.chk64 (2134 * aux1))) + (← (GoSem.chk64 (2816 * aux2)))))) + 2815))) 1028522)) + (Int.tdiv cyear 366)))) + 1))
+        pure ycycle
+      )
+    let year ← (GoSem.chk64 ((← (GoSem.chk64 ((← (GoSem.chk64 (2820 * cycle))) + ycycle))) + 474))
+    let yday ← (GoSem.chk64 ((← (GoSem.chk64 (jd - (← (jalali_ToJd_chk alg2820 (← (SrcExt.lib_NewDate year 1 1))))))) + 1))
+    let (month, day) ← (jalali_getMonthDayFromYdays_chk yday)
+    (SrcExt.lib_NewDate year month day)
+  else
+    let jdays ← (GoSem.chk64 ((← (GoSem.chk64 (jd - 1721426))) - 584101))
+    let (j_np, jdays) ← (utils_Divmod_chk jdays 12053)
+    let (yearFact, jdays) ← (utils_Divmod_chk jdays 1461)
+    let year_1 ← (GoSem.chk64 ((← (GoSem.chk64 (979 + (← (GoSem.chk64 (33 * j_np)))))) + (← (GoSem.chk64 (4 * yearFact)))))
+    let (jdays, year_1) ← (do
+      if (decide (jdays ≥ 366)) then
+        let yearPlus := (0 : Int)
+        let (yearPlus, jdays) ← (utils_Divmod_chk (← (GoSem.chk64 (jdays - 1))) 365)
+        let year_1 ← (GoSem.chk64 (year_1 + yearPlus))
+        pure (jdays, year_1)
+      else
+        pure (jdays, year_1)
+      )
+    let yday_1 ← (GoSem.chk64 (jdays + 1))
+    let (month_1, day_1) ← (jalali_getMonthDayFromYdays_chk yday_1)
+    (SrcExt.lib_NewDate year_1 month_1 day_1)
+
+/-- cal_types/jalali/jalali.go:210 -/
+def jalali_GetMonthLen_chk (alg2820 : Bool) (year : Int) (month : Int) : Option Int := do
+  if (decide (month = 12)) then
+    let _c1 ← (jalali_IsLeap_chk alg2820 year)
+    if _c1 then
+      pure 30
+    else
+      pure 29
+  else
+    (GoSem.idx jalali_monthLen (GoSem.u8 (month - 1)))
+
+/-- cal_types/ethiopian/ethiopian.go:104 -/
+def ethiopian_IsLeap_chk (year : Int) : Option Bool := do
+  pure (decide ((Int.tmod (← (GoSem.chk64 (year + 1))) 4) = 0))
+
+/-- cal_types/ethiopian/ethiopian.go:108 -/
+def ethiopian_ToJd_chk (date : GoSem.Date) : Option Int := do
+  (GoSem.chk64 ((← (GoSem.chk64 ((← (GoSem.chk64 ((← (GoSem.chk64 ((← (GoSem.chk64 (1724235 + (← (GoSem.chk64 (365 * (← (GoSem.chk64 ((date).Year - 1))))))))) + (← (utils_Div_chk (date).Year 4))))) + (← (GoSem.chk64 ((GoSem.u8 ((date).Month - 1)) * 30)))))) + (date).Day))) - 15))
+
+/-- cal_types/ethiopian/ethiopian.go:115 -/
+def ethiopian_JdTo_chk (jd : Int) : Option GoSem.Date := do
+  let (quad, dquad) ← (utils_Divmod_chk (← (GoSem.chk64 (jd - 1724235))) 1461)
+  let yindex ← (utils_IntMin_chk 3 (Int.tdiv dquad 365))
+  let year ← (GoSem.chk64 ((← (GoSem.chk64 ((← (GoSem.chk64 (quad * 4))) + yindex))) + 1))
+  let yearday ← (GoSem.chk64 (jd - (← (ethiopian_ToJd_chk (← (SrcExt.lib_NewDate year 1 1))))))
+  let month ← (GoSem.chk64 ((Int.tdiv yearday 30) + 1))
+  let day ← (GoSem.chk64 ((Int.tmod yearday 30) + 1))
+  let (month, day) ← (do
+    if (decide (month = 13)) then
+      let month ← (GoSem.chk64 (month - 1))
+      let day ← (GoSem.chk64 (day + 30))
+      pure (month, day)
+    else
+      pure (month, day)
+    )
+  let (year, month, day) ← (do
+    if (decide (month = 12)) then
+      let mLen := (35 : Int)
+      let _c1 ← (ethiopian_IsLeap_chk year)
+      let mLen ← (do
+        if _c1 then
+          let mLen ← (GoSem.chk64 (mLen + 1))
+          pure mLen
+        else
+          pure mLen
+        )
+      if (decide (day > mLen)) then
+        let year ← (GoSem.chk64 (year + 1))
+        let month := (1 : Int)
+        let day ← (GoSem.chk64 (day - mLen))
+        pure (year, month, day)
+      else
+        pure (year, month, day)
+    else
+      pure (year, month, day)
+    )
+  (SrcExt.lib_NewDate year (GoSem.u8 month) (GoSem.u8 day))
+
+/-- cal_types/ethiopian/ethiopian.go:142 -/
+def ethiopian_GetMonthLen_chk (year : Int) (month : Int) : Option Int := do
+  if (decide (month = 12)) then
+    let _c1 ← (ethiopian_IsLeap_chk year)
+    if _c1 then
+      pure 36
+    else
+      pure 35
+  else
+    (GoSem.idx ethiopian_monthLens (GoSem.u8 (month - 1)))
+
+/-- cal_types/gregorian_proleptic/gregorian_proleptic.go:112 -/
+def gprol_IsLeap_chk (year : Int) : Option Bool := do
+  let year ← (do
+    if (decide (year < 1)) then
+      let year ← (GoSem.chk64 (year + 1))
+      pure year
+    else
+      pure year
+    )
+  pure ((decide ((Int.tmod year 4) = 0)) && ((decide ((Int.tmod year 100) ≠ 0)) || (decide ((Int.tmod year 400) = 0))))
+
+/-- cal_types/gregorian_proleptic/gregorian_proleptic.go:119 -/
+def gprol_ToJd_chk (date : GoSem.Date) : Option Int := do
+  let a := (0 : Int)
+  let a ← (do
+    if (decide ((date).Month < 3)) then
+      let a := (1 : Int)
+      pure a
+    else
+      pure a
+    )
+  let y ← (GoSem.chk64 ((← (GoSem.chk64 ((date).Year + 4800))) - a))
+  let y ← (do
+    if (decide ((date).Year < 1)) then
+      let y ← (GoSem.chk64 (y + 1))
+      pure y
+    else
+      pure y
+    )
+  let m ← (GoSem.chk64 ((← (GoSem.chk64 ((date).Month + (← (GoSem.chk64 (12 * a)))))) - 3))
+  (GoSem.chk64 ((← (GoSem.chk64 ((← (GoSem.chk64 ((← (GoSem.chk64 ((← (GoSem.chk64 ((← (GoSem.chk64 ((← (GoSem.chk64 (365 * y))) + (← (utils_Div_chk y 4))))) - (← (utils_Div_chk y 100))))) + (← (utils_Div_chk y 400))))) - 32045))) + (← (utils_Div_chk (← (GoSem.chk64 ((← (GoSem.chk64 (153 * m))) + 2))) 5))))) + (date).Day))
+
+/-- cal_types/gregorian_proleptic/gregorian_proleptic.go:147 -/
+def gprol_JdTo_chk (jd : Int) : Option GoSem.Date := do
+  let a ← (GoSem.chk64 (jd + 32044))
+  let b ← (utils_Div_chk (← (GoSem.chk64 ((← (GoSem.chk64 (4 * a))) + 3))) 146097)
+  let c ← (GoSem.chk64 (a - (← (utils_Div_chk (← (GoSem.chk64 (146097 * b))) 4))))
+  let d ← (utils_Div_chk (← (GoSem.chk64 ((← (GoSem.chk64 (4 * c))) + 3))) 1461)
+  let e ← (GoSem.chk64 (c - (← (utils_Div_chk (← (GoSem.chk64 (1461 * d))) 4))))
+  let m ← (utils_Div_chk (← (GoSem.chk64 ((← (GoSem.chk64 (5 * e))) + 2))) 153)
+  let day := (GoSem.u8 (← (GoSem.chk64 ((← (GoSem.chk64 (e - (← (utils_Div_chk (← (GoSem.chk64 ((← (GoSem.chk64 (153 * m))) + 2))) 5))))) + 1))))
+  let month := (GoSem.u8 (← (GoSem.chk64 ((← (GoSem.chk64 (m + 3))) - (← (GoSem.chk64 (12 * (← (utils_Div_chk m 10)))))))))
+  let year ← (GoSem.chk64 ((← (GoSem.chk64 ((← (GoSem.chk64 ((← (GoSem.chk64 (100 * b))) + d))) - 4800))) + (← (utils_Div_chk m 10))))
+  let year ← (do
+    if (decide (year < 1)) then
+      let year ← (GoSem.chk64 (year - 1))
+      pure year
+    else
+      pure year
+    )
+  (SrcExt.lib_NewDate year month day)
+
+/-- cal_types/gregorian_proleptic/gregorian_proleptic.go:172 -/
+def gprol_GetMonthLen_chk (year : Int) (month : Int) : Option Int := do
+  if (decide (month = 2)) then
+    let _c1 ← (gprol_IsLeap_chk year)
+    if _c1 then
+      pure 29
+    else
+      pure 28
+  else
+    (GoSem.idx gprol_monthLen (GoSem.u8 (month - 1)))
+
+/-- cal_types/indian_national/indian_national.go:94 -/
+def indian_IsLeap_chk (year : Int) : Option Bool := do
+  (SrcExt.gregorian_IsLeap (← (GoSem.chk64 (year + 78))))
+
+/-- cal_types/indian_national/indian_national.go:98 -/
+def indian_ToJd_chk (date : GoSem.Date) : Option Int := do
+  let jdFirstDayOfYear := (0 : Int)
+  let daysInMonth1 := (0 : Int)
+  let _c1 ← (indian_IsLeap_chk (date).Year)
+  let (jdFirstDayOfYear, daysInMonth1) ← (do
+    if _c1 then
+      let jdFirstDayOfYear ← (SrcExt.gregorian_ToJd (← (SrcExt.lib_NewDate (← (GoSem.chk64 ((date).Year + 78))) 3 21)))
+      let daysInMonth1 := (31 : Int)
+      pure (jdFirstDayOfYear, daysInMonth1)
+    else
+      let jdFirstDayOfYear ← (SrcExt.gregorian_ToJd (← (SrcExt.lib_NewDate (← (GoSem.chk64 ((date).Year + 78))) 3 22)))
+      let daysInMonth1 := (30 : Int)
+      pure (jdFirstDayOfYear, daysInMonth1)
+    )
+  let jd := (0 : Int)
+  let jd ← (do
+    if (decide ((date).Month = 1)) then
+      let jd ← (GoSem.chk64 ((← (GoSem.chk64 (jdFirstDayOfYear + (date).Day))) - 1))
+      pure jd
+    else
+      if (decide ((date).Month ≤ 6)) then
+        let jd ← (GoSem.chk64 ((← (GoSem.chk64 ((← (GoSem.chk64 ((← (GoSem.chk64 (jdFirstDayOfYear + daysInMonth1))) + (← (GoSem.chk64 ((← (GoSem.chk64 ((date).Month - 2))) * 31)))))) + (date).Day))) - 1))
+        pure jd
+      else
+        let jd ← (GoSem.chk64 ((← (GoSem.chk64 ((← (GoSem.chk64 ((← (GoSem.chk64 ((← (GoSem.chk64 (jdFirstDayOfYear + daysInMonth1))) + 155))) + (← (GoSem.chk64 ((← (GoSem.chk64 ((date).Month - 7))) * 30)))))) + (date).Day))) - 1))
+        pure jd
+    )
+  pure jd
+
+/-- cal_types/indian_national/indian_national.go:136 -/
+def indian_JdTo_chk (jd : Int) : Option GoSem.Date := do
+  let year := (0 : Int)
+  let month := (0 : Int)
+  let day := (0 : Int)
+  let gDate ← (SrcExt.gregorian_JdTo jd)
+  let jdGregorianFirstDayOfYear ← (SrcExt.gregorian_ToJd (← (SrcExt.lib_NewDate (gDate).Year 1 1)))
+  let gregorianDayOfYear ← (GoSem.chk64 ((← (GoSem.chk64 (jd - jdGregorianFirstDayOfYear))) + 1))
+  let year ← (do
+    if (decide (gregorianDayOfYear > 80)) then
+      let year ← (GoSem.chk64 ((gDate).Year - 78))
+      pure year
+    else
+      let year ← (GoSem.chk64 ((gDate).Year - 79))
+      pure year
+    )
+  let daysInMonth1 := (0 : Int)
+  let _c1 ← (indian_IsLeap_chk year)
+  let daysInMonth1 ← (do
+    if _c1 then
+      let daysInMonth1 := (31 : Int)
+      pure daysInMonth1
+    else
+      let daysInMonth1 := (30 : Int)
+      pure daysInMonth1
+    )
+  let indianDayOfYear := (0 : Int)
+  let indianDayOfYear ← (do
+    if (decide (gregorianDayOfYear > 80)) then
+      let indianDayOfYear ← (GoSem.chk64 (gregorianDayOfYear - 80))
+      pure indianDayOfYear
+    else
+      let indianDayOfYear ← (GoSem.chk64 ((← (GoSem.chk64 ((← (GoSem.chk64 ((← (GoSem.chk64 (gregorianDayOfYear + daysInMonth1))) + 155))) + 180))) - 80))
+      pure indianDayOfYear
+    )
+  let (month, day) ← (do
+    if (decide (indianDayOfYear ≤ daysInMonth1)) then
+      let month := (1 : Int)
+      let day := indianDayOfYear
+      pure (month, day)
+    else
+      if (decide (indianDayOfYear ≤ (← (GoSem.chk64 (daysInMonth1 + 155))))) then
+        let month ← (GoSem.chk64 ((Int.tdiv (← (GoSem.chk64 ((← (GoSem.chk64 (indianDayOfYear - daysInMonth1))) - 1))) 31) + 2))
+        let day ← (GoSem.chk64 ((← (GoSem.chk64 (indianDayOfYear - daysInMonth1))) - (← (GoSem.chk64 ((← (GoSem.chk64 (month - 2))) * 31)))))
+        pure (month, day)
+      else
+        let month ← (GoSem.chk64 ((Int.tdiv (← (GoSem.chk64 ((← (GoSem.chk64 ((← (GoSem.chk64 (indianDayOfYear - daysInMonth1))) - 155))) - 1))) 30) + 7))
+        let day ← (GoSem.chk64 ((← (GoSem.chk64 ((← (GoSem.chk64 (indianDayOfYear - daysInMonth1))) - 155))) - (← (GoSem.chk64 ((← (GoSem.chk64 (month - 7))) * 30)))))
+        pure (month, day)
+    )
+  (SrcExt.lib_NewDate year (GoSem.u8 month) (GoSem.u8 day))
+
+/-- cal_types/indian_national/indian_national.go:188 -/
+def indian_GetMonthLen_chk (year : Int) (month : Int) : Option Int := do
+  if (decide (month = 1)) then
+    let _c1 ← (indian_IsLeap_chk year)
+    if _c1 then
+      pure 31
+    else
+      pure 30
+  else
+    if ((decide (2 ≤ month)) && (decide (month ≤ 6))) then
+      pure 31
+    else
+      pure 30
+
+/-- cal_types/hijri/hijri.go:244 -/
+def hijri_IsLeap_chk (year : Int) : Option Bool := do
+  pure (decide ((← (utils_Mod_chk (← (GoSem.chk64 ((← (GoSem.chk64 (year * 11))) + 14))) 30)) < 11))
+
+/-- cal_types/hijri/hijri.go:248 -/
+def hijri_ToJd_chk (date : GoSem.Date) : Option Int := do
+  (GoSem.chk64 ((← (GoSem.chk64 ((← (GoSem.chk64 ((← (GoSem.chk64 ((date).Day + (GoSem.ftoi ((Rat.ceil (((59 : Rat) / 2) * (((GoSem.u8 ((date).Month - 1)) : Int) : Rat)) : Int) : Rat))))) + (← (GoSem.chk64 ((← (GoSem.chk64 ((date).Year - 1))) * 354)))))) + (← (utils_Div_chk (← (GoSem.chk64 ((← (GoSem.chk64 (11 * (date).Year))) + 3))) 30))))) + 1948440))
+
+/-- cal_types/hijri/hijri.go:262 -/
+def hijri_JdTo_chk (jd : Int) : Option GoSem.Date := do
+  let year ← (utils_Div_chk (← (GoSem.chk64 ((← (GoSem.chk64 (30 * (← (GoSem.chk64 ((← (GoSem.chk64 (jd - 1))) - 1948440)))))) + 10646))) 10631)
+  let month := (GoSem.u8 (← (utils_IntMin_chk 12 (GoSem.ftoi ((Rat.ceil (((((jd : Int) : Rat) + ((1 : Rat) / 2)) - (((← (hijri_ToJd_chk (← (SrcExt.lib_NewDate year 1 1)))) : Int) : Rat)) / ((59 : Rat) / 2)) : Int) : Rat)))))
+  let day := (GoSem.u8 (← (GoSem.chk64 ((← (GoSem.chk64 (jd - (← (hijri_ToJd_chk (← (SrcExt.lib_NewDate year month 1))))))) + 1))))
+  (SrcExt.lib_NewDate year month day)
+
+/-- cal_types/hijri/hijri.go:281 -/
+def hijri_GetMonthLen_chk (year : Int) (month : Int) : Option Int := do
+  if (decide ((Int.tmod month 2) = 1)) then
+    pure 30
+  else
+    let _c1 ← (do if (decide (month = 12)) then (hijri_IsLeap_chk year) else pure false)
+    if _c1 then
+      pure 30
+    else
+      pure 29
+
 /-- the functions translated on this run -/
-def translated : List String := ["utils_Mod", "utils_Div", "utils_Divmod", "utils_IntMin", "utils_GetHmsBySeconds", "utils_MonthListIsValid", "utils_DayListIsValid", "utils_WeekDayListIsValid", "lib_GetTotalSeconds", "lib_GetFloatHour", "lib_FloatHourToHMS", "lib_toUint8", "lib_HMS_IsValid", "lib_Date_IsValid", "interval_Less", "julian_IsLeap", "julian_getYearDays", "julian_getMonthDayFromYdays", "julian_ToJd", "julian_JdTo", "julian_GetMonthLen", "jalali_IsLeap", "jalali_getMonthDayFromYdays", "jalali_ToJd", "jalali_JdTo", "jalali_GetMonthLen", "ethiopian_IsLeap", "ethiopian_ToJd", "ethiopian_JdTo", "ethiopian_GetMonthLen", "gprol_IsLeap", "gprol_ToJd", "gprol_JdTo", "gprol_GetMonthLen", "indian_IsLeap", "indian_ToJd", "indian_JdTo", "indian_GetMonthLen", "hijri_IsLeap", "hijri_ToJd", "hijri_JdTo", "hijri_GetMonthLen"]
+def translated : List String := ["utils_Mod", "utils_Div", "utils_Divmod", "utils_IntMin", "utils_GetHmsBySeconds", "utils_MonthListIsValid", "utils_DayListIsValid", "utils_WeekDayListIsValid", "lib_GetTotalSeconds", "lib_GetFloatHour", "lib_FloatHourToHMS", "lib_toUint8", "lib_HMS_IsValid", "lib_Date_IsValid", "interval_Less", "interval_GetPointList", "interval_GetIntervalList", "interval_Humanize", "stack_Push", "stack_Pop", "julian_IsLeap", "julian_getYearDays", "julian_getMonthDayFromYdays", "julian_ToJd", "julian_JdTo", "julian_GetMonthLen", "jalali_IsLeap", "jalali_getMonthDayFromYdays", "jalali_ToJd", "jalali_JdTo", "jalali_GetMonthLen", "ethiopian_IsLeap", "ethiopian_ToJd", "ethiopian_JdTo", "ethiopian_GetMonthLen", "gprol_IsLeap", "gprol_ToJd", "gprol_JdTo", "gprol_GetMonthLen", "indian_IsLeap", "indian_ToJd", "indian_JdTo", "indian_GetMonthLen", "hijri_IsLeap", "hijri_ToJd", "hijri_JdTo", "hijri_GetMonthLen"]
 
 end Starcal.Gen.Src
